@@ -31,6 +31,8 @@ CHECK = {
       G('addr3-B-rootsleft', 'base', 'naddr=3', 'prop=C06', 'residues=B', 'rootsleft=1'), G('addr4-B-d8', 'base', 'naddr=4', 'prop=C06', 'residues=B', 'depth=8'),
       G('addr4-B-rootsleft-d8', 'base', 'naddr=4', 'prop=C06', 'residues=B', 'rootsleft=1', 'depth=8'), G('addr3-rootsleft-asan', 'asan', 'naddr=3', 'prop=C06', 'rootsleft=1'),
       # a destructor allocates a root at the address of an object released earlier (single ownership only)
+      # destructor-less objects (type Leaf: no constructor, no destructor) among the cells, with and without destructors that take over released addresses
+      G('addr3-leafy-reuse', 'base', 'naddr=3', 'prop=C06', 'reuse=1', 'leafy=1'), G('addr3-leafy', 'base', 'naddr=3', 'prop=C06', 'leafy=1'), G('addr4-leafy-reuse-d7', 'base', 'naddr=4', 'prop=C06', 'reuse=1', 'leafy=1', 'depth=7'),
       G('own3-reuse', 'base', 'mode=own', 'n=3', 'reuse=1'), G('own4-reuse', 'base', 'mode=own', 'n=4', 'reuse=1'), G('addr3-reuse', 'base', 'naddr=3', 'prop=C06', 'reuse=1'), G('addr4-reuse-d8', 'base', 'naddr=4', 'prop=C06', 'reuse=1', 'depth=8'), G('own3-reuse-asan', 'asan', 'mode=own', 'n=3', 'reuse=1'),
       # a destructor appends a new managed record under a root (highest arena address) and keeps it
       G('addr3-keep', 'base', 'naddr=3', 'prop=C06', 'keep=1'), G('addr4-keep-d8', 'base', 'naddr=4', 'prop=C06', 'keep=1', 'depth=8'),
@@ -44,6 +46,7 @@ CHECK = {
       G('addr4-asan', 'asan', 'naddr=4', 'prop=C06'),
       G('own3', 'base', 'mode=own', 'n=3'), G('own4', 'base', 'mode=own', 'n=4'), G('own4-asan', 'asan', 'mode=own', 'n=4'), G('exit6', 'base', 'mode=exit', 'depth=6'), G('exit5-asan', 'asan', 'mode=exit', 'depth=5'),
       G('addr4-B', 'base', 'naddr=4', 'prop=C06', 'residues=B'), G('addr4-B-rootsleft', 'base', 'naddr=4', 'prop=C06', 'residues=B', 'rootsleft=1'), G('addr5-B-rootsleft', 'base', 'naddr=5', 'prop=C06', 'residues=B', 'rootsleft=1', 'deadline=600'), G('addr4-rootsleft-asan', 'asan', 'naddr=4', 'prop=C06', 'rootsleft=1'),
+      G('addr4-leafy-reuse', 'base', 'naddr=4', 'prop=C06', 'reuse=1', 'leafy=1'), G('addr4-leafy', 'base', 'naddr=4', 'prop=C06', 'leafy=1'), G('addr3-leafy-reuse-asan', 'asan', 'naddr=3', 'prop=C06', 'reuse=1', 'leafy=1'),
       G('own4-reuse', 'base', 'mode=own', 'n=4', 'reuse=1'), G('addr4-reuse', 'base', 'naddr=4', 'prop=C06', 'reuse=1'), G('addr4-B-reuse', 'base', 'naddr=4', 'prop=C06', 'reuse=1', 'residues=B'), G('own4-reuse-asan', 'asan', 'mode=own', 'n=4', 'reuse=1'),
       G('addr4-keep', 'base', 'naddr=4', 'prop=C06', 'keep=1'), G('addr4-B-keep', 'base', 'naddr=4', 'prop=C06', 'keep=1', 'residues=B'),
       G('addr4-temps2', 'base', 'naddr=4', 'prop=C06', 'temps=2'), G('addr4-temps1', 'base', 'naddr=4', 'prop=C06', 'temps=1'), G('addr3-temps3-asan', 'asan', 'naddr=3', 'prop=C06', 'temps=3'),
